@@ -224,51 +224,54 @@ Proof. unfold rangeAppendAll_visit. dmatch. Qed.
 Lemma rangeAppendAll_total f : forall s, run_rangeAppendAll f <> Panic s.
 Proof. apply run_stmt_total. intros. apply rangeAppendAll_visit_total. Qed.
 
-(* --- regexp entry guards --- *)
-Lemma regexp_entry_partial names who f :
-  all_nodes_sat (g_spelled_call_has_args names) f -> forall s, run_expr (regexp_entry names who) f <> Panic s.
+(* --- checkers whose fixed code has no reachable partial operation left --- *)
+Lemma regexp_entry_total names who f : forall s, run_expr (regexp_entry names who) f <> Panic s.
+Proof. apply run_expr_total. intros e He s. unfold regexp_entry. dmatch. Qed.
+
+Lemma newDeref_total f : forall s, run_newDeref f <> Panic s.
 Proof.
-  intros G. apply run_expr_total. intros e He s. pose proof (sat_of _ _ _ G He) as Ge.
-  unfold regexp_entry. unfold g_spelled_call_has_args in Ge.
-  destruct (is_tag TCall e); simpl; [|discriminate].
-  destruct (kids e) as [|fn args]; [discriminate|].
-  destruct (mem (qualified_name fn) names); simpl; [|discriminate].
-  destruct args; [discriminate Ge|discriminate].
+  apply run_expr_total. intros e He s. unfold newDeref_visit.
+  destruct e as [t p str a b ff ks]. destruct t; try discriminate. dmatch.
 Qed.
 
-(* --- newDeref --- *)
-Lemma newDeref_partial f :
-  all_nodes_sat g_new_args f -> forall s, run_newDeref f <> Panic s.
+Lemma dupOption_total f : forall s, run_dupOption f <> Panic s.
+Proof. apply run_expr_total. intros e He s. unfold dupOption_visit. dmatch. Qed.
+
+Lemma sortSlice_total f : forall s, run_sortSlice f <> Panic s.
+Proof. apply run_expr_total. intros e He s. unfold sortSlice_visit. dmatch. Qed.
+
+Lemma has_ptr_recv_total sel s : has_ptr_recv sel <> P s.
+Proof. unfold has_ptr_recv. dmatch. Qed.
+
+Lemma eo_call_total id call s : eo_call id call <> Panic s.
 Proof.
-  intros G. apply run_expr_total. intros e He s. unfold newDeref_visit.
-  destruct e as [t p str a b ff ks]. destruct t; try discriminate.
-  destruct ks as [|x r]; [discriminate|]. destruct r; [|discriminate].
-  assert (Hx : In x (all_nodes f)) by (eapply all_nodes_kid; eauto; unfold kids; simpl; auto).
-  pose proof (sat_of _ _ _ G Hx) as Gx. unfold g_new_args in Gx.
-  destruct (is_tag TCall x); simpl; [|discriminate].
-  destruct (kids x) as [|fn args]; [discriminate|].
-  destruct (is_tag TIdent fn && String.eqb (nstr fn) "new"); simpl; [|discriminate].
-  destruct args as [|a0 ?]; [discriminate Gx|].
-  destruct (f_ty (nfacts a0)); simpl; try discriminate;
-    destruct (f_deflit (nfacts a0)); simpl; discriminate.
+  unfold eo_call. cbv zeta. dmatch; try discriminate.
+  exfalso. eapply has_ptr_recv_total; eassumption.
 Qed.
 
-(* --- dupOption --- *)
-Lemma dupOption_partial f :
-  all_nodes_sat g_variadic_fixed_args f -> forall s, run_dupOption f <> Panic s.
+Lemma evalOrder_total f : forall s, run_evalOrder f <> Panic s.
 Proof.
-  intros G. apply run_expr_total. intros e He s. pose proof (sat_of _ _ _ G He) as Ge.
-  unfold dupOption_visit. unfold g_variadic_fixed_args in Ge.
-  destruct (is_tag TCall e); simpl; [|discriminate].
-  destruct (kids e) as [|fn args]; [discriminate|].
-  destruct args as [|a0 args]; [discriminate|].
-  destruct (N.eqb (na e) 1); [discriminate|].
-  destruct (f_sig (nfacts fn)) as [|np v rc opt]; [discriminate|]. destruct v; [|discriminate].
-  apply Nat.leb_le in Ge.
-  destruct (Nat.ltb (length (a0 :: args)) (N.to_nat np - 1)) eqn:E.
-  - apply Nat.ltb_lt in E. lia.
-  - destruct (skipn (N.to_nat np - 1) (a0 :: args)); [discriminate|]. destruct (negb opt); discriminate.
+  apply run_stmt_total. intros e He s. unfold evalOrder_visit.
+  destruct (negb (is_tag TReturn e)); [discriminate|]. destruct (Nat.ltb _ 2); [discriminate|].
+  apply seq_o_no_panic. intros o Ho. apply in_map_iff in Ho as [id [<- Hid]].
+  destruct (is_tag TIdent id); [|discriminate].
+  apply seq_o_no_panic. intros o Ho. apply in_map_iff in Ho as [call [<- Hc]]. apply eo_call_total.
 Qed.
+
+Lemma ac_match_total stmt slice s : ac_match stmt slice <> P s.
+Proof. unfold ac_match. dmatch. Qed.
+
+Lemma ac_loop_total l : forall cause slice chain s, ac_loop l cause slice chain <> Panic s.
+Proof.
+  induction l as [|stmt r IH]; simpl; intros cause slice chain s; [discriminate|].
+  destruct (ac_match stmt slice) as [[[fn a0]|]|s0] eqn:E.
+  - destruct (Nat.eqb chain 0); apply IH.
+  - specialize (IH cause None 0). destruct (ac_loop r cause None 0); [discriminate|]. exfalso. eapply IH; eauto.
+  - exfalso. eapply ac_match_total; eauto.
+Qed.
+
+Lemma appendCombine_total f : forall s, run_appendCombine f <> Panic s.
+Proof. apply run_stmt_list_total. intros l Hl s. apply ac_loop_total. Qed.
 
 (* --- flagName --- *)
 Lemma arity_ok_pos nargs ell fm np rc o :
@@ -282,12 +285,12 @@ Qed.
 
 Local Arguments mem : simpl never.
 
-Lemma flagName_partial f :
-  wf f = true -> all_nodes_sat g_flagvar_two_args f -> forall s, run_flagName f <> Panic s.
+Lemma flagName_total f :
+  wf f = true -> forall s, run_flagName f <> Panic s.
 Proof.
-  intros W G. apply run_expr_total. intros e He s. pose proof (sat_of _ _ _ G He) as Ge.
+  intros W. apply run_expr_total. intros e He s.
   pose proof (wf_node_of _ _ W He) as We.
-  unfold flagName_visit. unfold g_flagvar_two_args in Ge.
+  unfold flagName_visit.
   destruct (is_tag TCall e) eqn:Tc; simpl; [|discriminate].
   unfold wf_node in We. rewrite (is_tag_eq _ _ Tc) in We.
   apply andb_true_iff in We as [_ We]. unfold wf_call in We.
@@ -306,7 +309,6 @@ Proof.
   rename Wfn into Ts. destruct sel as [ts ps ss as_ bs fs ksl].
   unfold is_tag in Ts. simpl in Ts. apply tag_eqb_eq in Ts; subst ts.
   simpl in We. rewrite Ox in We. simpl in We. simpl.
-  simpl in Ge.
   destruct (mem ss flag_names1) eqn:M1.
   - (* Args[0]: the API has three parameters *)
     unfold api_arity in We. simpl in We. rewrite M1 in We.
@@ -317,59 +319,16 @@ Proof.
     + apply Nat.eqb_eq in Wa. destruct args; [discriminate Wa|discriminate].
     + apply arity_ok_pos in Wa; [|reflexivity]. destruct args; [simpl in Wa; lia|discriminate].
   - destruct (mem ss flag_names2) eqn:M2; [|discriminate].
-    destruct args as [|a0 [|a1 ?]]; simpl in Ge; try discriminate Ge. discriminate.
+    destruct args as [|a0 [|a1 ?]]; discriminate.
 Qed.
 
-(* --- appendCombine --- *)
-Lemma ac_match_partial f stmt slice s :
-  all_nodes_sat g_append_args f -> In stmt (all_nodes f) -> ac_match stmt slice <> P s.
-Proof.
-  intros G Hs. unfold ac_match.
-  destruct (negb (is_tag TAssign stmt)); [discriminate|].
-  destruct (negb _); [discriminate|].
-  destruct (kids stmt) as [|lhs [|rhs [|? ?]]] eqn:Ks; try discriminate.
-  assert (Hr : In rhs (all_nodes f)) by (eapply all_nodes_kid; eauto; rewrite Ks; simpl; auto).
-  pose proof (sat_of _ _ _ G Hr) as Gr. unfold g_append_args, g_spelled_call_has_args in Gr.
-  destruct (is_tag TCall rhs); simpl; [|discriminate].
-  destruct (kids rhs) as [|fn args]; [discriminate|].
-  change (mem (qualified_name fn) ["append"]) with (String.eqb (qualified_name fn) "append" || false) in Gr.
-  rewrite orb_false_r in Gr.
-  destruct (String.eqb (qualified_name fn) "append"); simpl; [|discriminate].
-  destruct (N.eqb (na rhs) 1); [discriminate|].
-  destruct args as [|a0 ?]; [discriminate Gr|].
-  destruct (negb (node_eqb lhs a0)); [discriminate|]. destruct slice; [destruct (node_eqb n a0)|]; discriminate.
-Qed.
 
-Lemma ac_loop_partial f :
-  all_nodes_sat g_append_args f ->
-  forall l, (forall x, In x l -> In x (all_nodes f)) -> forall cause slice chain s, ac_loop l cause slice chain <> Panic s.
+(* --- appendAssign: the fixed entry test guarantees an argument --- *)
+Lemma aa_check_total x call s :
+  (match kids call with fn :: args => nonempty args | [] => false end) = true -> aa_check x call <> Panic s.
 Proof.
-  intros G l. induction l as [|stmt r IH]; simpl; intros Hl cause slice chain s; [discriminate|].
-  assert (Hr : forall x, In x r -> In x (all_nodes f)) by (intros; apply Hl; auto).
-  destruct (ac_match stmt slice) as [[[fn a0]|]|s0] eqn:E.
-  - destruct (Nat.eqb chain 0); apply IH; auto.
-  - specialize (IH Hr cause None 0). destruct (ac_loop r cause None 0); [discriminate|]. exfalso. eapply IH; eauto.
-  - exfalso. eapply ac_match_partial; eauto.
-Qed.
-
-Lemma appendCombine_partial f :
-  all_nodes_sat g_append_args f -> forall s, run_appendCombine f <> Panic s.
-Proof.
-  intros G. apply run_stmt_list_total. intros l Hl s. unfold appendCombine_visit. eapply ac_loop_partial; eauto.
-Qed.
-
-(* --- appendAssign --- *)
-Lemma aa_check_partial f x call s :
-  wf f = true -> all_nodes_sat g_append_args f -> In call (all_nodes f) -> is_tag TCall call = true ->
-  (match kids call with fn :: _ => String.eqb (qualified_name fn) "append" | [] => false end) = true ->
-  aa_check x call <> Panic s.
-Proof.
-  intros W G Hc Tc Hq. pose proof (sat_of _ _ _ G Hc) as Gc. unfold g_append_args, g_spelled_call_has_args in Gc.
-  rewrite Tc in Gc. unfold aa_check.
-  destruct (kids call) as [|fn args]; [discriminate|].
-  change (mem (qualified_name fn) ["append"]) with (String.eqb (qualified_name fn) "append" || false) in Gc.
-  rewrite orb_false_r, Hq in Gc.
-  destruct args as [|a0 rest]; [discriminate Gc|].
+  intros H. unfold aa_check. destruct (kids call) as [|fn args]; [discriminate|].
+  destruct args as [|a0 rest]; [discriminate H|].
   destruct (N.eqb (na call) 1).
   - destruct (existsb _ rest); [discriminate|].
     destruct (is_tag TIdent x && String.eqb (nstr x) "_"); [discriminate|].
@@ -382,122 +341,70 @@ Proof.
     destruct ks; [discriminate|]. destruct (f_arr (nfacts n)); discriminate.
 Qed.
 
-Lemma aa_pairs_partial f :
-  wf f = true -> all_nodes_sat g_append_args f ->
-  forall lhs rhs, (forall r, In r rhs -> In r (all_nodes f)) -> forall o, In o (aa_pairs lhs rhs) -> forall s, o <> Panic s.
+Lemma aa_pairs_total lhs : forall rhs o, In o (aa_pairs lhs rhs) -> forall s, o <> Panic s.
 Proof.
-  intros W G lhs. induction lhs as [|x l IH]; intros [|r0 r] Hr o Ho s; simpl in Ho; try contradiction.
-  destruct Ho as [<-|Ho].
-  - destruct (is_tag TCall r0) eqn:Tc; simpl; [|discriminate].
-    destruct (match kids r0 with fn :: _ => String.eqb (qualified_name fn) "append" | [] => false end) eqn:Hq; [|discriminate].
-    eapply aa_check_partial; eauto. apply Hr; simpl; auto.
-  - apply (IH r); [intros; apply Hr; simpl; auto|exact Ho].
+  induction lhs as [|x l IH]; intros [|r0 r] o Ho s; simpl in Ho; try contradiction.
+  destruct Ho as [<-|Ho]; [|eapply IH; eauto].
+  destruct (is_tag TCall r0); simpl; [|discriminate].
+  destruct (match kids r0 with fn :: args => String.eqb (qualified_name fn) "append" && nonempty args | [] => false end) eqn:Hq;
+    [|discriminate].
+  apply aa_check_total. destruct (kids r0) as [|fn args]; [discriminate|]. apply andb_true_iff in Hq. tauto.
 Qed.
 
-Lemma appendAssign_partial f :
-  wf f = true -> all_nodes_sat g_append_args f -> forall s, run_appendAssign f <> Panic s.
+Lemma appendAssign_total f : forall s, run_appendAssign f <> Panic s.
 Proof.
-  intros W G. apply run_stmt_total. intros e He s. unfold appendAssign_visit.
+  apply run_stmt_total. intros e He s. unfold appendAssign_visit.
   destruct (negb (is_tag TAssign e)); [discriminate|].
   destruct (negb _); [discriminate|].
   destruct (negb _); [discriminate|].
-  apply seq_o_no_panic. apply (aa_pairs_partial f W G).
-  intros r Hr. eapply all_nodes_kid; eauto. eapply skipn_In'; eauto.
+  apply seq_o_no_panic. apply aa_pairs_total.
 Qed.
 
-(* --- typeDefFirst --- *)
-Lemma receiver_type_plain e : no_paren_recv e = true -> exists name, receiver_type e = R name.
+(* --- typeDefFirst: wf gives the receiver shape the type checker accepts --- *)
+Lemma receiver_type_shape e : recv_shape e = true -> exists name, receiver_type e = R name.
 Proof.
   revert e. fix IH 1. intros [t p s a b ff ks]. destruct t; simpl; try discriminate.
   - eauto.
+  - destruct ks as [|x [|? ?]]; try discriminate. apply IH.
   - destruct ks as [|x [|? ?]]; try discriminate. apply IH.
   - destruct ks as [|x ?]; try discriminate. apply IH.
   - destruct ks as [|x ?]; try discriminate. apply IH.
 Qed.
 
-Lemma tdf_loop_partial f :
-  wf f = true ->
-  forall ds, (forall d, In d ds -> In d (all_nodes f) /\ g_recv_plain d = true) ->
-  forall tracked s, tdf_loop ds tracked <> Panic s.
+Lemma wf_method_recv d :
+  wf_node d = true -> ntag d = TFuncDecl -> N.eqb (na d) 0 = false ->
+  exists recv rest fld ty,
+    kids d = recv :: rest /\ kids recv = [fld] /\ nth_error (kids fld) (N.to_nat (na fld)) = Some ty /\ recv_shape ty = true.
+Proof.
+  intros W T E0. unfold wf_node in W. rewrite T in W.
+  apply andb_true_iff in W as [W _]. apply andb_true_iff in W as [W _]. apply andb_true_iff in W as [W Wr].
+  apply andb_true_iff in W as [W _]. apply andb_true_iff in W as [W _]. apply N.leb_le in W.
+  assert (E1 : N.eqb (na d) 1 = true) by (apply N.eqb_neq in E0; apply N.eqb_eq; lia).
+  rewrite E1 in Wr. destruct (kids d) as [|recv rest] eqn:Kd; [discriminate|].
+  apply andb_true_iff in Wr as [_ Wr].
+  destruct (kids recv) as [|fld [|? ?]] eqn:Kr; try discriminate.
+  destruct (nth_error (kids fld) (N.to_nat (na fld))) as [ty|] eqn:En; [|discriminate].
+  exists recv, rest, fld, ty. auto.
+Qed.
+
+Lemma tdf_loop_total f :
+  wf f = true -> forall ds, (forall d, In d ds -> In d (all_nodes f)) -> forall tracked s, tdf_loop ds tracked <> Panic s.
 Proof.
   intros W ds. induction ds as [|d r IH]; simpl; intros Hd tracked s; [discriminate|].
-  assert (Hr : forall d, In d r -> In d (all_nodes f) /\ g_recv_plain d = true) by (intros; apply Hd; auto).
-  destruct (Hd d (or_introl eq_refl)) as [Hin Gd].
-  pose proof (wf_node_of _ _ W Hin) as Wd. unfold wf_node in Wd. unfold g_recv_plain in Gd.
+  assert (Hr : forall d, In d r -> In d (all_nodes f)) by (intros; apply Hd; auto).
+  pose proof (wf_node_of _ _ W (Hd d (or_introl eq_refl))) as Wd.
   destruct (ntag d) eqn:Td; try (apply IH; auto).
-  - (* FuncDecl *)
-    assert (Tt : is_tag TFuncDecl d = true) by (unfold is_tag; rewrite Td; reflexivity).
-    rewrite Tt in Gd. simpl in Gd.
-    destruct (N.eqb (na d) 0) eqn:E0; [apply IH; auto|].
-    assert (E1 : N.eqb (na d) 1 = true).
-    { repeat (apply andb_true_iff in Wd as [Wd ?]). apply N.leb_le in Wd. apply N.eqb_neq in E0. apply N.eqb_eq. lia. }
-    rewrite E1 in Gd, Wd.
-    destruct (kids d) as [|recv ?]; [repeat (apply andb_true_iff in Wd as [Wd ?]); discriminate|].
-    destruct (kids recv) as [|fld [|? ?]];
-      try (repeat (apply andb_true_iff in Wd as [Wd ?]);
-           match goal with H : is_tag TFieldList recv && _ = true |- _ => apply andb_true_iff in H as [_ H]; discriminate H end).
-    destruct (nth_error (kids fld) (N.to_nat (na fld))) as [ty|];
-      [|repeat (apply andb_true_iff in Wd as [Wd ?]);
-        match goal with H : is_tag TFieldList recv && _ = true |- _ => apply andb_true_iff in H as [_ H]; discriminate H end].
-    destruct (receiver_type_plain _ Gd) as [name ->]. apply IH; auto.
-  - (* GenDecl *)
-    destruct (negb (N.eqb (na d) tok_TYPE)); [apply IH; auto|].
+  - destruct (N.eqb (na d) 0) eqn:E0; [apply IH; auto|].
+    destruct (wf_method_recv d Wd Td E0) as [recv [rest [fld [ty [K1 [K2 [K3 K4]]]]]]].
+    rewrite K1, K2, K3. destruct (receiver_type_shape _ K4) as [name ->]. apply IH; auto.
+  - destruct (negb (N.eqb (na d) tok_TYPE)); [apply IH; auto|].
     specialize (IH Hr tracked). destruct (tdf_loop r tracked); [discriminate|]. exfalso. eapply IH; eauto.
 Qed.
 
-Lemma typeDefFirst_partial f :
-  wf f = true -> (forall d, In d (decls f) -> g_recv_plain d = true) -> forall s, run_typeDefFirst f <> Panic s.
+Lemma typeDefFirst_total f : wf f = true -> forall s, run_typeDefFirst f <> Panic s.
 Proof.
-  intros W G. unfold run_typeDefFirst. apply (tdf_loop_partial f W).
-  intros d Hd. split; auto. eapply all_nodes_pre; eauto. apply pre_self.
-Qed.
-
-(* --- sortSlice --- *)
-Lemma sortSlice_partial f :
-  all_nodes_sat g_lit_returns_value f -> forall s, run_sortSlice f <> Panic s.
-Proof.
-  intros G. apply run_expr_total. intros e He s. unfold sortSlice_visit.
-  destruct (negb (is_tag TCall e)); [discriminate|].
-  destruct (kids e) as [|fn [|a0 [|a1 [|? ?]]]] eqn:Ke; try discriminate.
-  destruct (negb _); [discriminate|].
-  assert (H1 : In a1 (all_nodes f)) by (eapply all_nodes_kid; eauto; rewrite Ke; simpl; auto).
-  pose proof (sat_of _ _ _ G H1) as G1.
-  destruct a1 as [t p1 s1 x1 y1 f1 k1]. destruct t; try discriminate.
-  destruct k1 as [|ft [|body [|? ?]]]; try discriminate.
-  simpl in G1.
-  destruct (negb (f_pure _)); [discriminate|].
-  destruct (param_idents ft) as [[ivar jvar]|]; [|discriminate].
-  destruct (kids body) as [|ret [|? ?]]; try discriminate.
-  destruct (is_tag TReturn ret); simpl; [|discriminate].
-  destruct (kids ret) as [|r0 ?]; [discriminate G1|].
-  destruct (unparen r0) as [t ? ? ? ? ? kc]; destruct t; try discriminate.
-  destruct kc as [|x [|y [|? ?]]]; try discriminate.
-  destruct (negb (f_pure _)); [discriminate|]. destruct (negb (is_cmp_op a)); discriminate.
-Qed.
-
-(* --- evalOrder --- *)
-Lemma evalOrder_partial f :
-  all_nodes_sat g_return_calls_methods f -> forall s, run_evalOrder f <> Panic s.
-Proof.
-  intros G. apply run_stmt_total. intros e He s. pose proof (sat_of _ _ _ G He) as Ge.
-  unfold evalOrder_visit. unfold g_return_calls_methods in Ge.
-  destruct (is_tag TReturn e); simpl; [|discriminate].
-  destruct (Nat.ltb _ 2); [discriminate|].
-  rewrite forallb_forall in Ge.
-  apply seq_o_no_panic. intros o Ho. apply in_map_iff in Ho as [id [<- Hid]].
-  destruct (is_tag TIdent id) eqn:Ti; [|discriminate].
-  apply seq_o_no_panic. intros o Ho. apply in_map_iff in Ho as [call [<- Hc]].
-  specialize (Ge call Hc). unfold eo_call.
-  destruct (negb (is_tag TCall call)); [discriminate|].
-  destruct (kids call) as [|fn ?]; [destruct (contains_node _ _); discriminate|].
-  destruct fn as [t ? ? ? ? ? kf]; destruct t; try (destruct (contains_node _ _); discriminate).
-  destruct kf as [|x [|sel [|? ?]]]; try (destruct (contains_node _ _); discriminate).
-  destruct (node_eqb x id) eqn:Ex; [|destruct (contains_node _ _); discriminate].
-  assert (Hex : existsb (fun id0 => is_tag TIdent id0 && node_eqb x id0) (kids e) = true).
-  { apply existsb_exists. exists id. rewrite Ti, Ex. auto. }
-  rewrite Hex in Ge. unfold recv_known in Ge. unfold has_ptr_recv.
-  destruct (f_sig (nfacts sel)) as [|np v rc o]; [destruct (contains_node _ _); discriminate|].
-  destruct rc; try discriminate Ge; destruct (contains_node _ _); discriminate.
+  intros W. unfold run_typeDefFirst. apply (tdf_loop_total f W).
+  intros d Hd. eapply all_nodes_pre; eauto. apply pre_self.
 Qed.
 
 (* ================= C07: the cause of every warning is a node of the file ================= *)
@@ -506,7 +413,11 @@ Definition cause_in_file (f : file) (w : warning) : Prop := In (w_cause w) (all_
 Lemma cause_pos_valid f w : wf f = true -> cause_in_file f w -> In (w_pos w) (token_starts f).
 Proof. intros W H. unfold w_pos. apply wf_pos_of; auto. Qed.
 
-Ltac inw H := simpl in H; repeat (destruct H as [<-|H]; [simpl; auto|]); try contradiction.
+Ltac dmatch_in H :=
+  repeat (match type of H with
+          | context [match ?x with _ => _ end] => destruct x eqn:?
+          | context [if ?x then _ else _] => destruct x eqn:?
+          end; simpl in H; try contradiction).
 
 Lemma newDeref_cause f w : In w (warnings (run_newDeref f)) -> cause_in_file f w.
 Proof.
@@ -515,9 +426,8 @@ Proof.
   destruct ks as [|x [|? ?]]; try contradiction.
   destruct (negb (is_tag TCall x)); [contradiction|].
   destruct (kids x) as [|fn args]; [contradiction|].
-  destruct (negb _); [contradiction|]. destruct args as [|a0 ?]; [contradiction|].
-  destruct (f_ty (nfacts a0)); simpl in Hw; try contradiction;
-    destruct (f_deflit (nfacts a0)); simpl in Hw; try contradiction; destruct Hw as [<-|[]]; exact He.
+  destruct (negb _); [contradiction|]. destruct args as [|a0 [|? ?]]; try contradiction.
+  destruct (f_ty (nfacts a0)); simpl in Hw; try contradiction; destruct Hw as [<-|[]]; exact He.
 Qed.
 
 Lemma flagName_cause_callee f w :
@@ -542,6 +452,13 @@ Proof.
     destruct (nth_error args 1); [eapply K; exact Hw|contradiction].
 Qed.
 
+Lemma flagName_real f w :
+  In w (warnings (run_flagName f)) -> w_callee w = OPkgName "flag" /\ is_real w = true.
+Proof.
+  intros H. destruct (flagName_cause_callee f w H) as [_ [Hc Hr]]. split; [exact Hc|].
+  unfold is_real. rewrite Hr, Hc. reflexivity.
+Qed.
+
 Lemma filepathJoin_cause f w : In w (warnings (run_filepathJoin f)) -> cause_in_file f w.
 Proof.
   intros H. apply run_expr_warn in H as [e [He Hw]]. unfold cause_in_file. unfold filepathJoin_visit in Hw.
@@ -550,6 +467,12 @@ Proof.
   destruct (negb _); [contradiction|]. simpl in Hw. apply in_flat_map in Hw as [arg [Ha Hw]].
   destruct (_ && _); [|contradiction]. destruct Hw as [<-|[]]. simpl.
   eapply all_nodes_kid; eauto. rewrite Ke. right. exact Ha.
+Qed.
+
+Lemma find_dups_sub seen l x : In x (find_dups seen l) -> In x l.
+Proof.
+  revert seen. induction l as [|y r IH]; simpl; intros seen Hx; [contradiction|].
+  destruct (existsb (node_eqb y) seen); [destruct Hx as [->|Hx]; eauto|eauto].
 Qed.
 
 Lemma dupOption_cause f w : In w (warnings (run_dupOption f)) -> cause_in_file f w.
@@ -565,28 +488,178 @@ Proof.
   assert (Hw' : In w (map (fun a => mkw "dupOption" a RNoSubject a true) (find_dups [] vargs))).
   { destruct vargs; [contradiction|]. destruct (negb opt); [contradiction|]. exact Hw. }
   clear Hw. apply in_map_iff in Hw' as [a [<- Ha]]. simpl.
-  assert (Hsub : forall seen l x, In x (find_dups seen l) -> In x l).
-  { intros seen l. revert seen. induction l as [|y r IH]; simpl; intros seen x Hx; [contradiction|].
-    destruct (existsb (node_eqb y) seen); [destruct Hx as [->|Hx]; eauto|eauto]. }
-  apply Hsub in Ha. rewrite Sk in Ha. apply skipn_In' in Ha.
+  apply find_dups_sub in Ha. rewrite Sk in Ha. apply skipn_In' in Ha.
   eapply all_nodes_kid; eauto. rewrite Ke. right. exact Ha.
 Qed.
 
-(* C07: ZeroValueOf never puts a nil argument into the suggested expression *)
-Lemma newDeref_render_partial f w :
-  all_nodes_sat g_new_has_literal f -> In w (warnings (run_newDeref f)) -> w_render_ok w = true.
+(* regexp entry models emit no warnings *)
+Lemma regexp_entry_no_warnings names who f w : ~ In w (warnings (run_expr (regexp_entry names who) f)).
 Proof.
-  intros G H. apply run_expr_warn in H as [e [He Hw]]. unfold newDeref_visit in Hw.
+  intros H. apply run_expr_warn in H as [e [_ Hw]]. unfold regexp_entry in Hw. dmatch_in Hw.
+Qed.
+
+(* appendCombine: the cause is the first statement of a chain, a member of the visited list *)
+Lemma ac_loop_cause f l :
+  (forall x, In x l -> In x (all_nodes f)) ->
+  forall cause slice chain w,
+    (match cause with Some (st, _) => In st (all_nodes f) | None => True end) ->
+    In w (warnings (ac_loop l cause slice chain)) -> cause_in_file f w.
+Proof.
+  unfold cause_in_file.
+  assert (Fl : forall cause chain w, (match cause with Some (st, _) => In st (all_nodes f) | None => True end) ->
+                 In w (ac_flush cause chain) -> In (w_cause w) (all_nodes f)).
+  { intros [[st fn]|] chain w Hc Hw; simpl in Hw; [|contradiction].
+    destruct (Nat.ltb 1 chain); [|contradiction]. destruct Hw as [<-|[]]. exact Hc. }
+  induction l as [|stmt r IH]; simpl; intros Hl cause slice chain w Hc Hw.
+  - eapply Fl; eauto.
+  - assert (Hr : forall x, In x r -> In x (all_nodes f)) by (intros; apply Hl; auto).
+    destruct (ac_match stmt slice) as [[[fn a0]|]|s0].
+    + destruct (Nat.eqb chain 0).
+      * eapply (IH Hr (Some (stmt, fn))); eauto; simpl; apply Hl; auto.
+      * eapply (IH Hr cause); eauto.
+    + destruct (ac_loop r cause None 0) as [ws|s1] eqn:E; simpl in Hw; [|contradiction].
+      apply in_app_or in Hw as [Hw|Hw]; [eapply Fl; eauto|].
+      eapply (IH Hr cause None 0); eauto. rewrite E. exact Hw.
+    + contradiction.
+Qed.
+
+Lemma appendCombine_cause f w : In w (warnings (run_appendCombine f)) -> cause_in_file f w.
+Proof.
+  intros H. apply run_stmt_list_warn in H as [l [Hl Hw]]. unfold appendCombine_visit in Hw.
+  eapply ac_loop_cause; eauto. exact I.
+Qed.
+
+(* appendAssign: the cause is the append call on the right-hand side *)
+Lemma aa_check_cause x call w : In w (warnings (aa_check x call)) -> w_cause w = call.
+Proof.
+  unfold aa_check, aa_match_slices. intros H. dmatch_in H; destruct H as [<-|[]]; reflexivity.
+Qed.
+
+Lemma aa_pairs_cause lhs : forall rhs o w, In o (aa_pairs lhs rhs) -> In w (warnings o) -> In (w_cause w) rhs.
+Proof.
+  induction lhs as [|x l IH]; intros [|r0 r] o w Ho Hw; simpl in Ho; try contradiction.
+  destruct Ho as [<-|Ho]; [|right; eapply IH; eauto].
+  destruct (is_tag TCall r0 && _); [|contradiction]. left. symmetry. eapply aa_check_cause; eauto.
+Qed.
+
+Lemma appendAssign_cause f w : In w (warnings (run_appendAssign f)) -> cause_in_file f w.
+Proof.
+  intros H. apply run_stmt_warn in H as [e [He Hw]]. unfold cause_in_file. unfold appendAssign_visit in Hw.
+  destruct (negb (is_tag TAssign e)); [contradiction|].
+  destruct (negb _); [contradiction|].
+  destruct (negb _); [contradiction|].
+  apply seq_o_warnings in Hw as [o [Ho Hw]]. eapply aa_pairs_cause in Ho; eauto.
+  eapply all_nodes_kid; eauto. eapply skipn_In'; eauto.
+Qed.
+
+(* typeDefFirst: the cause is the type declaration itself *)
+Lemma tdf_loop_cause f ds :
+  (forall d, In d ds -> In d (all_nodes f)) -> forall tracked w, In w (warnings (tdf_loop ds tracked)) -> cause_in_file f w.
+Proof.
+  unfold cause_in_file. induction ds as [|d r IH]; simpl; intros Hd tracked w Hw; [contradiction|].
+  assert (Hr : forall d, In d r -> In d (all_nodes f)) by (intros; apply Hd; auto).
+  destruct (ntag d); try (eapply IH; eauto; fail).
+  - destruct (N.eqb (na d) 0); [eapply IH; eauto|].
+    destruct (kids d) as [|recv ?]; [contradiction|]. destruct (kids recv) as [|fld ?]; [contradiction|].
+    destruct (nth_error _ _); [|contradiction]. destruct (receiver_type n); [eapply IH; eauto|contradiction].
+  - destruct (negb _); [eapply IH; eauto|].
+    destruct (tdf_loop r tracked) as [ws|] eqn:E; simpl in Hw; [|contradiction].
+    apply in_app_or in Hw as [Hw|Hw].
+    + unfold tdf_specs in Hw. apply in_flat_map in Hw as [spec [_ Hw]].
+      destruct (kids spec); [contradiction|]. destruct (mem _ _); [|contradiction].
+      destruct Hw as [<-|[]]. simpl. apply Hd; auto.
+    + eapply (IH Hr tracked). rewrite E. exact Hw.
+Qed.
+
+Lemma typeDefFirst_cause f w : In w (warnings (run_typeDefFirst f)) -> cause_in_file f w.
+Proof.
+  intros H. unfold run_typeDefFirst in H. apply (tdf_loop_cause f (decls f)) with (tracked := []); [|exact H].
+  intros d Hd. eapply all_nodes_pre; eauto. apply pre_self.
+Qed.
+
+(* sortSlice: the cause is the comparison inside the less function *)
+Lemma unparen_in_pre : forall n, In (unparen n) (pre n).
+Proof.
+  fix IH 1. intros [t p s a b ff ks]. destruct t; try (apply pre_self).
+  destruct ks as [|x [|? ?]]; try (apply pre_self).
+  simpl. right. apply in_or_app. left. apply IH.
+Qed.
+
+Lemma sortSlice_cause f w : In w (warnings (run_sortSlice f)) -> cause_in_file f w.
+Proof.
+  intros H. apply run_expr_warn in H as [e [He Hw]]. unfold cause_in_file. unfold sortSlice_visit in Hw.
+  destruct (negb (is_tag TCall e)); [contradiction|].
+  destruct (kids e) as [|fn [|a0 [|a1 [|? ?]]]] eqn:Ke; try contradiction.
+  destruct (negb _); [contradiction|].
+  assert (H1 : In a1 (all_nodes f)) by (eapply all_nodes_kid; eauto; rewrite Ke; simpl; auto).
+  destruct a1 as [t p1 s1 x1 y1 f1 k1]. destruct t; try contradiction.
+  destruct k1 as [|ft [|body [|? ?]]]; try contradiction.
+  assert (Hb : In body (all_nodes f)) by (eapply all_nodes_kid; eauto; unfold kids; simpl; auto).
+  destruct (negb (f_pure _)); [contradiction|].
+  destruct (param_idents ft) as [[ivar jvar]|]; [|contradiction].
+  destruct (kids body) as [|ret [|? ?]] eqn:Kb; try contradiction.
+  assert (Hret : In ret (all_nodes f)) by (eapply all_nodes_kid; eauto; rewrite Kb; simpl; auto).
+  destruct (is_tag TReturn ret); simpl in Hw; [|contradiction].
+  destruct (kids ret) as [|r0 ?] eqn:Kr; [contradiction|].
+  assert (Hr0 : In r0 (all_nodes f)) by (eapply all_nodes_kid; eauto; rewrite Kr; simpl; auto).
+  assert (Hc : In (unparen r0) (all_nodes f)) by (eapply all_nodes_closed; eauto; apply unparen_in_pre).
+  destruct (unparen r0) as [t ? ? ? ? ? kc] eqn:Eu; destruct t; try contradiction.
+  destruct kc as [|x [|y [|? ?]]]; try contradiction.
+  destruct (negb (f_pure _)); [contradiction|]. destruct (negb (is_cmp_op a)); [contradiction|].
+  simpl in Hw. apply in_app_or in Hw as [Hw|Hw];
+    (destruct (_ && _); [|contradiction]); destruct Hw as [<-|[]]; exact Hc.
+Qed.
+
+(* evalOrder: the cause is the call among the results *)
+Lemma eo_call_cause id call w : In w (warnings (eo_call id call)) -> w_cause w = call.
+Proof.
+  unfold eo_call. cbv zeta. intros H.
+  dmatch_in H; repeat (destruct H as [<-|H]; [reflexivity|]); try contradiction.
+Qed.
+
+Lemma evalOrder_cause f w : In w (warnings (run_evalOrder f)) -> cause_in_file f w.
+Proof.
+  intros H. apply run_stmt_warn in H as [e [He Hw]]. unfold cause_in_file. unfold evalOrder_visit in Hw.
+  destruct (negb (is_tag TReturn e)); [contradiction|]. destruct (Nat.ltb _ 2); [contradiction|].
+  apply seq_o_warnings in Hw as [o [Ho Hw]]. apply in_map_iff in Ho as [id [<- Hid]].
+  destruct (is_tag TIdent id); [|contradiction].
+  apply seq_o_warnings in Hw as [o [Ho Hw]]. apply in_map_iff in Ho as [call [<- Hc]].
+  apply eo_call_cause in Hw. rewrite Hw. eapply all_nodes_kid; eauto.
+Qed.
+
+(* rangeAppendAll: the cause is the appended identifier inside the loop body *)
+Lemma rangeAppendAll_cause f w : In w (warnings (run_rangeAppendAll f)) -> cause_in_file f w.
+Proof.
+  intros H. apply run_stmt_warn in H as [e [He Hw]]. unfold cause_in_file. unfold rangeAppendAll_visit in Hw.
+  destruct (negb (is_tag TRange e)); [contradiction|].
+  destruct (nth_error (kids e) (N.to_nat (na e))) as [x|]; [|contradiction].
+  destruct (nth_error (kids e) (N.to_nat (na e) + 1)) as [body|] eqn:Eb; [|contradiction].
+  assert (Hb : In body (all_nodes f)) by (eapply all_nodes_kid; eauto; eapply nth_error_In; eauto).
+  destruct (kids body); [contradiction|].
+  destruct (negb (is_tag TIdent x)); [contradiction|]. simpl in Hw.
+  apply in_flat_map in Hw as [m [Hn Hw]].
+  assert (Hn' : In m (all_nodes f)) by (eapply all_nodes_closed; eauto; apply post_in_pre; auto).
+  unfold valid_append_from in Hw.
+  destruct m as [t ? ? ell ? ? kn]; destruct t; try contradiction.
+  destruct kn as [|fn [|a0 [|a1 [|? ?]]]]; try contradiction.
+  destruct (negb (N.eqb ell 1)); [contradiction|].
+  destruct (negb (String.eqb (qualified_name fn) "append")); [contradiction|].
+  destruct (is_slice_literal a0); [contradiction|].
+  destruct (is_tag TIdent a1); [|contradiction].
+  destruct (N.eqb _ _); [|contradiction]. destruct Hw as [<-|[]]. simpl.
+  eapply all_nodes_kid; eauto. unfold kids; simpl; auto.
+Qed.
+
+(* C07: ZeroValueOf (fixed) never yields an expression with a nil argument *)
+Lemma newDeref_render_ok f w : In w (warnings (run_newDeref f)) -> w_render_ok w = true.
+Proof.
+  intros H. apply run_expr_warn in H as [e [He Hw]]. unfold newDeref_visit in Hw.
   destruct e as [t p str a b ff ks]. destruct t; try contradiction.
   destruct ks as [|x [|? ?]]; try contradiction.
-  assert (Hx : In x (all_nodes f)) by (eapply all_nodes_kid; eauto; unfold kids; simpl; auto).
-  pose proof (sat_of _ _ _ G Hx) as Gx. unfold g_new_has_literal in Gx.
-  destruct (is_tag TCall x); simpl in Hw; [|contradiction].
+  destruct (negb (is_tag TCall x)); [contradiction|].
   destruct (kids x) as [|fn args]; [contradiction|].
-  destruct (is_tag TIdent fn && String.eqb (nstr fn) "new"); simpl in Hw; [|contradiction].
-  destruct args as [|a0 ?]; [contradiction|].
-  destruct (f_ty (nfacts a0)); simpl in Hw; try contradiction; try discriminate Gx;
-    destruct (f_deflit (nfacts a0)); simpl in Hw; try contradiction; destruct Hw as [<-|[]]; reflexivity.
+  destruct (negb _); [contradiction|]. destruct args as [|a0 [|? ?]]; try contradiction.
+  destruct (f_ty (nfacts a0)); simpl in Hw; try contradiction; destruct Hw as [<-|[]]; reflexivity.
 Qed.
 
 (* ================= C20: recognition by spelling is right when nothing shadows the name ================= *)
@@ -602,16 +675,45 @@ Proof.
   assert (Hf : In fn (all_nodes f)) by (eapply all_nodes_kid; eauto; rewrite Kx; simpl; auto).
   pose proof (sat_of _ _ _ G Hf) as Gf. unfold g_no_namesake_bare in Gf.
   destruct (is_tag TIdent fn && String.eqb (nstr fn) "new"); simpl in Hw; [|contradiction].
-  destruct args as [|a0 ?]; [contradiction|].
-  destruct (f_ty (nfacts a0)); simpl in Hw; try contradiction;
-    destruct (f_deflit (nfacts a0)); simpl in Hw; try contradiction; destruct Hw as [<-|[]];
+  destruct args as [|a0 [|? ?]]; try contradiction.
+  destruct (f_ty (nfacts a0)); simpl in Hw; try contradiction; destruct Hw as [<-|[]];
     unfold is_real; simpl; rewrite Gf; reflexivity.
 Qed.
 
-
-Lemma flagName_real f w :
-  In w (warnings (run_flagName f)) -> w_callee w = OPkgName "flag" /\ is_real w = true.
+(* ================= truncateCmp, nilValReturn ================= *)
+Lemma truncateCmp_total skip f : forall s, run_truncateCmp skip f <> Panic s.
 Proof.
-  intros H. destruct (flagName_cause_callee f w H) as [_ [Hc Hr]]. split; [exact Hc|].
-  unfold is_real. rewrite Hr, Hc. reflexivity.
+  apply run_expr_total. intros e He s. unfold truncateCmp_visit.
+  destruct e as [t p str a b ff ks]. destruct t; try discriminate. dmatch.
+Qed.
+
+Lemma nilValReturn_total f : forall s, run_nilValReturn f <> Panic s.
+Proof. apply run_stmt_total. intros e He s. unfold nilValReturn_visit. cbv zeta. dmatch. Qed.
+
+Lemma tc_check_cause skip xcast y w : In w (tc_check skip xcast y) -> w_cause w = xcast.
+Proof. unfold tc_check. intros H. dmatch_in H. destruct H as [<-|[]]. reflexivity. Qed.
+
+Lemma truncateCmp_cause skip f w : In w (warnings (run_truncateCmp skip f)) -> cause_in_file f w.
+Proof.
+  intros H. apply run_expr_warn in H as [e [He Hw]]. unfold cause_in_file. unfold truncateCmp_visit in Hw.
+  destruct e as [t p str a b ff ks]. destruct t; try contradiction.
+  destruct ks as [|x [|y [|? ?]]]; try contradiction.
+  assert (Hx : In x (all_nodes f)) by (eapply all_nodes_kid; eauto; unfold kids; simpl; auto).
+  assert (Hy : In y (all_nodes f)) by (apply (all_nodes_kid f _ y He); unfold kids; simpl; auto).
+  destruct (negb _); [contradiction|]. destruct (_ || _); [contradiction|].
+  destruct (is_trunc_cast x), (is_trunc_cast y); simpl in Hw; try contradiction;
+    apply tc_check_cause in Hw; rewrite Hw; assumption.
+Qed.
+
+Lemma nilValReturn_cause f w : In w (warnings (run_nilValReturn f)) -> cause_in_file f w.
+Proof.
+  intros H. apply run_stmt_warn in H as [e [He Hw]]. unfold cause_in_file. unfold nilValReturn_visit in Hw. cbv zeta in Hw.
+  destruct (negb (is_tag TIf e)); [contradiction|].
+  destruct (nth_error (kids e) (N.to_nat (na e))) as [cond|]; [|contradiction].
+  destruct (nth_error (kids e) (N.to_nat (na e) + 1)) as [body|] eqn:Eb; [|contradiction].
+  assert (Hb : In body (all_nodes f)) by (eapply all_nodes_kid; eauto; eapply nth_error_In; eauto).
+  destruct (kids body) as [|ret [|? ?]] eqn:Kb; try contradiction.
+  assert (Hr : In ret (all_nodes f)) by (eapply all_nodes_kid; eauto; rewrite Kb; simpl; auto).
+  destruct (negb (is_tag TReturn ret)); [contradiction|].
+  dmatch_in Hw. destruct Hw as [<-|[]]. exact Hr.
 Qed.
